@@ -1,49 +1,628 @@
 (* MergeThm.v — proofs about Merge.v (C15). *)
 From Coq Require Import NArith ZArith List Bool Lia.
 Import ListNotations.
-Require Import OPC.gen.GenTables OPC.Uni OPC.Names OPC.NamesThm OPC.PyLit OPC.Values OPC.Merge.
+Require Import OPC.gen.GenTables OPC.Uni OPC.Names OPC.NamesThm OPC.PyLit OPC.Values OPC.ValuesThm OPC.Merge.
 Open Scope N_scope.
 
-(* STATEMENTS TO PROVE (keep the statements exactly as written):
+(* ---------- basic equalities ---------- *)
+Lemma mkind_eqb_eq a b : mkind_eqb a b = true <-> a = b.
+Proof. destruct a, b; cbn; split; intros H; (reflexivity || discriminate H). Qed.
+Lemma mkind_eqb_refl a : mkind_eqb a a = true.
+Proof. now apply mkind_eqb_eq. Qed.
+Lemma str_eqb_refl s : str_eqb s s = true.
+Proof. now apply str_eqb_eq. Qed.
+Lemma str_eqb_sym a b : str_eqb a b = str_eqb b a.
+Proof.
+  destruct (str_eqb a b) eqn:E1, (str_eqb b a) eqn:E2; try reflexivity.
+  - apply str_eqb_eq in E1. subst. now rewrite str_eqb_refl in E2.
+  - apply str_eqb_eq in E2. subst. now rewrite str_eqb_refl in E1.
+Qed.
+Lemma evalue_eqb_eq a b : evalue_eqb a b = true <-> a = b.
+Proof.
+  destruct a as [x|x], b as [y|y]; cbn [evalue_eqb]; split; intros H; try discriminate H.
+  - apply Z.eqb_eq in H. now subst.
+  - injection H as ->. apply Z.eqb_refl.
+  - apply str_eqb_eq in H. now subst.
+  - injection H as ->. apply str_eqb_refl.
+Qed.
+Lemma evalue_eqb_refl a : evalue_eqb a a = true.
+Proof. now apply evalue_eqb_eq. Qed.
+Lemma member_eqb_eq a b : member_eqb a b = true <-> a = b.
+Proof.
+  destruct a as [n1 e1], b as [n2 e2]. unfold member_eqb. cbn [fst snd]. rewrite andb_true_iff, str_eqb_eq, evalue_eqb_eq.
+  split; [intros [-> ->]; reflexivity | intros H; injection H as -> ->; auto].
+Qed.
+Lemma member_eqb_refl a : member_eqb a a = true.
+Proof. now apply member_eqb_eq. Qed.
+Lemma jval_eqb_refl a : jval_eqb a a = true.
+Proof.
+  destruct a as [|b|z|f|s|s]; cbn [jval_eqb]; auto using str_eqb_refl, Z.eqb_refl.
+  - now destruct b.
+  - apply str_eqb_refl.
+Qed.
+Lemma jval_eqb_sym a b : jval_eqb a b = jval_eqb b a.
+Proof.
+  destruct a as [|x|x|x|x|x], b as [|y|y|y|y|y]; cbn [jval_eqb]; try reflexivity.
+  - now destruct x, y.
+  - apply Z.eqb_sym.
+  - unfold fl_eqb. apply str_eqb_sym.
+  - apply str_eqb_sym.
+  - apply str_eqb_sym.
+Qed.
+Lemma vtype_eqb_refl a : vtype_eqb a a = true.
+Proof. now destruct a. Qed.
+Lemma vtype_eqb_sym a b : vtype_eqb a b = vtype_eqb b a.
+Proof. now destruct a, b. Qed.
+Lemma mkind_eqb_sym a b : mkind_eqb a b = mkind_eqb b a.
+Proof. now destruct a, b. Qed.
 
-(* a property is mandatory if any member requires it *)
+Lemma list_eqb_eq {A} (eq : A -> A -> bool) (Heq : forall x y, eq x y = true <-> x = y) :
+  forall a b, list_eqb eq a b = true <-> a = b.
+Proof.
+  induction a as [|x a IH]; intros [|y b]; cbn [list_eqb]; split; intros H; try discriminate H; try reflexivity.
+  - apply andb_true_iff in H as [H1 H2]. apply Heq in H1. apply IH in H2. now subst.
+  - injection H as -> ->. apply andb_true_iff. split; [now apply Heq | now apply IH].
+Qed.
+
+(* ---------- common ---------- *)
+Definition conv_of (o : oracles) (cur ov : mprop) : result :=
+  match mp_dflt ov with Some d => convert_value o (ckind_of cur) (raw d) | None => Ok None end.
+Lemma common_cons o cur ov ext : common o cur (ov :: ext) =
+  match conv_of o cur ov with
+  | Err => MErr | Crash => MCrash
+  | Ok od => match cur with
+             | MP k r d ds e pl =>
+               common o (MP k (r || mp_required ov) (or_opt od d) (or_opt (mp_descr ov) ds) (or_opt (mp_example ov) e) pl) ext
+             end
+  end.
+Proof. reflexivity. Qed.
+
+Lemma common_spec o : forall ext cur r, common o cur ext = MOk r ->
+  mp_kind r = mp_kind cur /\ mp_pl r = mp_pl cur /\ mp_required r = mp_required cur || existsb mp_required ext.
+Proof.
+  induction ext as [|ov ext IH]; intros cur r H.
+  - cbn [common] in H. injection H as <-. cbn [existsb]. now rewrite orb_false_r.
+  - rewrite common_cons in H. destruct (conv_of o cur ov) as [od| |]; try discriminate H.
+    destruct cur as [k rq d ds e pl]. apply IH in H. cbn [mp_kind mp_pl mp_required existsb] in *.
+    destruct H as (Hk & Hp & Hr). repeat split; auto. rewrite Hr. now rewrite orb_assoc.
+Qed.
+
+Lemma merge_unfold o p1 p2 : merge o p1 p2 =
+  let k1 := mp_kind p1 in let k2 := mp_kind p2 in
+  if mkind_eqb k2 MAny then common o p1 [p2]
+  else if mkind_eqb k1 MAny then common o p2 [p1; p2]
+  else if mkind_eqb k1 MEnum || mkind_eqb k2 MEnum then merge_with_enum o p1 p2
+  else if mkind_eqb k1 MLitEnum || mkind_eqb k2 MLitEnum then merge_with_litenum o p1 p2
+  else if mkind_eqb k1 k2 then
+    if mprop_eqb p1 p2 then MOk p1
+    else match p1, mp_pl p2 with
+         | MP k r d ds e (PL_list i1), PL_list i2 =>
+             match merge o i1 i2 with
+             | MOk i => common o (MP k r d ds e (PL_list i)) [p2]
+             | MErr => MErr
+             | MCrash => MCrash
+             end
+         | _, _ => common o p1 [p2]
+         end
+  else if mkind_eqb k1 MInt && mkind_eqb k2 MFloat then common o p1 [p2]
+  else if mkind_eqb k2 MInt && mkind_eqb k1 MFloat then common o p2 [p1; p2]
+  else if mkind_eqb k1 MStr && is_fmt k2 then common o p2 [p1; p2]
+  else if mkind_eqb k2 MStr && is_fmt k1 then common o p1 [p2]
+  else MErr.
+Proof. destruct p1; reflexivity. Qed.
+
+(* ---------- merge_required_or ---------- *)
+Ltac req_fin H rq1 rq2 :=
+  apply common_spec in H; cbn [mp_required existsb] in H; destruct H as (_ & _ & ->);
+  destruct rq1, rq2; reflexivity.
+
+Lemma mwe_required o p1 p2 r : merge_with_enum o p1 p2 = MOk r -> mp_required r = mp_required p1 || mp_required p2.
+Proof.
+  destruct p1 as [k1 rq1 d1 ds1 e1 pl1], p2 as [k2 rq2 d2 ds2 e2 pl2].
+  unfold merge_with_enum. cbn [mp_kind mp_pl mp_required].
+  destruct k1; destruct pl1; destruct k2; try (intros H; discriminate H); destruct pl2; try (intros H; discriminate H);
+  repeat match goal with |- (if ?c then _ else _) = _ -> _ => destruct c end; intros H; try discriminate H;
+  req_fin H rq1 rq2.
+Qed.
+Lemma mwl_required o p1 p2 r : merge_with_litenum o p1 p2 = MOk r -> mp_required r = mp_required p1 || mp_required p2.
+Proof.
+  destruct p1 as [k1 rq1 d1 ds1 e1 pl1], p2 as [k2 rq2 d2 ds2 e2 pl2].
+  unfold merge_with_litenum. cbn [mp_kind mp_pl mp_required].
+  destruct k1; destruct pl1; destruct k2; try (intros H; discriminate H); destruct pl2; try (intros H; discriminate H);
+  repeat match goal with |- (if ?c then _ else _) = _ -> _ => destruct c end; intros H; try discriminate H;
+  req_fin H rq1 rq2.
+Qed.
+
 Theorem merge_required_or : forall o p q r,
   merge o p q = MOk r -> mp_required r = mp_required p || mp_required q.
+Proof.
+  intros o p q r H. rewrite merge_unfold in H. cbv zeta in H.
+  destruct (mkind_eqb (mp_kind q) MAny).
+  { destruct p as [k1 rq1 d1 ds1 e1 pl1], q as [k2 rq2 d2 ds2 e2 pl2]. req_fin H rq1 rq2. }
+  destruct (mkind_eqb (mp_kind p) MAny).
+  { destruct p as [k1 rq1 d1 ds1 e1 pl1], q as [k2 rq2 d2 ds2 e2 pl2]. req_fin H rq1 rq2. }
+  destruct (mkind_eqb (mp_kind p) MEnum || mkind_eqb (mp_kind q) MEnum).
+  { exact (mwe_required o _ _ _ H). }
+  destruct (mkind_eqb (mp_kind p) MLitEnum || mkind_eqb (mp_kind q) MLitEnum).
+  { exact (mwl_required o _ _ _ H). }
+  destruct (mkind_eqb (mp_kind p) (mp_kind q)).
+  { destruct (mprop_eqb p q) eqn:Eq.
+    - injection H as <-. destruct p as [k1 rq1 d1 ds1 e1 pl1], q as [k2 rq2 d2 ds2 e2 pl2].
+      cbn [mprop_eqb] in Eq. cbn [mp_required].
+      destruct (Bool.eqb rq1 rq2) eqn:Er.
+      + apply Bool.eqb_prop in Er. subst. now destruct rq2.
+      + rewrite andb_false_r in Eq. discriminate Eq.
+    - destruct p as [k1 rq1 d1 ds1 e1 pl1], q as [k2 rq2 d2 ds2 e2 pl2]. cbn [mp_pl] in H.
+      destruct pl1; try (req_fin H rq1 rq2).
+      destruct pl2; try (req_fin H rq1 rq2).
+      destruct (merge o inner inner0); try discriminate H. req_fin H rq1 rq2. }
+  destruct p as [k1 rq1 d1 ds1 e1 pl1], q as [k2 rq2 d2 ds2 e2 pl2].
+  repeat match type of H with (if ?c then _ else _) = _ => destruct c end; try discriminate H; req_fin H rq1 rq2.
+Qed.
 
-(* the kind of the result is the narrowest compatible kind *)
+(* ---------- case split on both kinds, payload shapes fixed by well-formedness ---------- *)
+Ltac split_kinds p q Hwp Hwq :=
+  destruct p as [k1 rq1 d1 ds1 e1 pl1]; destruct q as [k2 rq2 d2 ds2 e2 pl2];
+  destruct k1; destruct pl1 as [|vt1 v1 c1|vt1 v1 c1|i1|cv1|ms1 id1|id1]; try discriminate Hwp;
+  destruct k2; destruct pl2 as [|vt2 v2 c2|vt2 v2 c2|i2|cv2|ms2 id2|id2]; try discriminate Hwq;
+  try destruct vt1; try destruct vt2.
+
+Ltac crunch H :=
+  cbn -[common mprop_eqb subset_members subset_evalues] in H;
+  repeat match type of H with (if ?c then _ else _) = _ => destruct c eqn:? end; try discriminate H.
+
 Theorem merge_kind_narrowest : forall o p q r,
   wf_mprop p = true -> wf_mprop q = true -> merge o p q = MOk r ->
   narrow_kind (mp_kind p) (mp_kind q) (vt_of p) (vt_of q) = Some (mp_kind r).
+Proof.
+  intros o p q r Hwp Hwq H.
+  split_kinds p q Hwp Hwq; crunch H; cbn;
+  try (injection H as <-; reflexivity);
+  try (apply common_spec in H; destruct H as (-> & _ & _); reflexivity).
+  destruct (merge o i1 i2); try discriminate H.
+  apply common_spec in H; destruct H as (-> & _ & _); reflexivity.
+Qed.
 
-(* the result stays well-formed *)
-Theorem merge_wf : forall o p q r,
-  wf_mprop p = true -> wf_mprop q = true -> merge o p q = MOk r -> wf_mprop r = true.
-
-(* when both member orders succeed, the resulting TYPE (kind + payload, enum values as a set) is the same *)
-Theorem merge_type_symmetric : forall o p q r1 r2,
-  wf_mprop p = true -> wf_mprop q = true -> g_merge p q = true ->
-  merge o p q = MOk r1 -> merge o q p = MOk r2 -> ty_eqb r1 r2 = true.
-
-(* incompatible kinds are a diagnostic in both orders *)
 Theorem merge_incompatible_symmetric : forall o p q,
   wf_mprop p = true -> wf_mprop q = true ->
   narrow_kind (mp_kind p) (mp_kind q) (vt_of p) (vt_of q) = None ->
   merge o p q = MErr /\ merge o q p = MErr.
+Proof.
+  intros o p q Hwp Hwq Hn.
+  split_kinds p q Hwp Hwq; cbn in Hn; try discriminate Hn; split; reflexivity.
+Qed.
 
-(* the guard is necessary: two different models under one property name: the first one silently wins *)
+(* ---------- induction through PL_list ---------- *)
+Scheme mprop_mut := Induction for mprop Sort Prop
+  with mpayload_mut := Induction for mpayload Sort Prop.
+Lemma mprop_ind' (P : mprop -> Prop) :
+  (forall p, (forall i, mp_pl p = PL_list i -> P i) -> P p) -> forall p, P p.
+Proof.
+  intros H. apply (mprop_mut P (fun pl => forall i, pl = PL_list i -> P i)).
+  - intros k r d ds e pl IH. apply H. exact IH.
+  - intros i Hi; discriminate Hi.
+  - intros vt vals cls i Hi; discriminate Hi.
+  - intros vt vals cls i Hi; discriminate Hi.
+  - intros inner IH i Hi. injection Hi as <-. exact IH.
+  - intros cv i Hi; discriminate Hi.
+  - intros ms id i Hi; discriminate Hi.
+  - intros id i Hi; discriminate Hi.
+Qed.
+
+(* ---------- subsets ---------- *)
+Lemma subset_members_In a b : subset_members a b = true <-> (forall x, In x a -> In x b).
+Proof.
+  unfold subset_members. rewrite forallb_forall. split; intros H x Hx; specialize (H x Hx).
+  - apply existsb_exists in H as (y & Hy & E). apply member_eqb_eq in E. now subst.
+  - apply existsb_exists. exists x. split; [exact H | apply member_eqb_refl].
+Qed.
+Lemma subset_evalues_In a b : subset_evalues a b = true <-> (forall x, In x a -> In x b).
+Proof.
+  unfold subset_evalues. rewrite forallb_forall. split; intros H x Hx; specialize (H x Hx).
+  - apply existsb_exists in H as (y & Hy & E). apply evalue_eqb_eq in E. now subst.
+  - apply existsb_exists. exists x. split; [exact H | apply evalue_eqb_refl].
+Qed.
+Lemma subset_members_refl a : subset_members a a = true.
+Proof. apply subset_members_In. auto. Qed.
+Lemma subset_evalues_refl a : subset_evalues a a = true.
+Proof. apply subset_evalues_In. auto. Qed.
+
+Lemma wf_ext a b : mp_kind a = mp_kind b -> mp_pl a = mp_pl b -> wf_mprop a = wf_mprop b.
+Proof. destruct a, b; cbn [mp_kind mp_pl]; intros -> ->. reflexivity. Qed.
+
+Lemma nonempty_negb {A} (v : list A) : negb (match v with [] => true | _ => false end) = true <-> v <> [].
+Proof. destruct v; cbn; split; intros H; congruence. Qed.
+
+Lemma wf_enum_second rq d ds e vt1 v1 c1 vt2 v2 c2 r1 d1 ds1 e1 r2 d2 ds2 e2 :
+  wf_mprop (MP MEnum r1 d1 ds1 e1 (PL_enum vt1 v1 c1)) = true ->
+  wf_mprop (MP MEnum r2 d2 ds2 e2 (PL_enum vt2 v2 c2)) = true ->
+  subset_members v2 v1 = true ->
+  wf_mprop (MP MEnum rq d ds e (PL_enum vt1 v2 c2)) = true.
+Proof.
+  cbn [wf_mprop mp_kind mp_pl]. intros H1 H2 Hs.
+  apply andb_true_iff in H1 as [_ H1]. apply andb_true_iff in H2 as [H2 _].
+  apply andb_true_iff. split; [exact H2|].
+  rewrite forallb_forall in *. intros x Hx. apply H1. rewrite subset_members_In in Hs. auto.
+Qed.
+Lemma wf_litenum_second rq d ds e vt1 v1 c1 vt2 v2 c2 r1 d1 ds1 e1 r2 d2 ds2 e2 :
+  wf_mprop (MP MLitEnum r1 d1 ds1 e1 (PL_litenum vt1 v1 c1)) = true ->
+  wf_mprop (MP MLitEnum r2 d2 ds2 e2 (PL_litenum vt2 v2 c2)) = true ->
+  subset_evalues v2 v1 = true ->
+  wf_mprop (MP MLitEnum rq d ds e (PL_litenum vt1 v2 c2)) = true.
+Proof.
+  cbn [wf_mprop mp_kind mp_pl]. intros H1 H2 Hs.
+  apply andb_true_iff in H1 as [_ H1]. apply andb_true_iff in H2 as [H2 _].
+  apply andb_true_iff. split; [exact H2|].
+  rewrite forallb_forall in *. intros x Hx. apply H1. rewrite subset_evalues_In in Hs. auto.
+Qed.
+
+Theorem merge_wf : forall o p q r,
+  wf_mprop p = true -> wf_mprop q = true -> merge o p q = MOk r -> wf_mprop r = true.
+Proof.
+  intros o p. induction p as [p IH] using mprop_ind'. intros q r Hwp Hwq H.
+  split_kinds p q Hwp Hwq; crunch H;
+  try (injection H as <-; exact Hwp);
+  try (apply common_spec in H; destruct H as (Hk & Hp & _); rewrite (wf_ext _ _ Hk Hp);
+       first [ exact Hwp | exact Hwq
+             | eapply wf_enum_second; [exact Hwp | exact Hwq | assumption]
+             | eapply wf_litenum_second; [exact Hwp | exact Hwq | assumption] ]).
+  destruct (merge o i1 i2) as [i| |] eqn:Em; try discriminate H.
+  apply common_spec in H; destruct H as (Hk & Hp & _); rewrite (wf_ext _ _ Hk Hp).
+  exact (IH i1 eq_refl i2 i Hwp Hwq Em).
+Qed.
+
+(* ---------- ty_eqb / mprop_eqb facts ---------- *)
+Lemma ty_eqb_unfold a b : ty_eqb a b =
+  mkind_eqb (mp_kind a) (mp_kind b) &&
+  match mp_pl a, mp_pl b with
+  | PL_none, PL_none => true
+  | PL_enum vt1 v1 c1, PL_enum vt2 v2 c2 => vtype_eqb vt1 vt2 && same_set_members v1 v2 && str_eqb c1 c2
+  | PL_litenum vt1 v1 c1, PL_litenum vt2 v2 c2 => vtype_eqb vt1 vt2 && same_set_evalues v1 v2 && str_eqb c1 c2
+  | PL_list i1, PL_list i2 => ty_eqb i1 i2
+  | PL_const c1, PL_const c2 => jval_eqb c1 c2
+  | PL_union _ i1, PL_union _ i2 => i1 =? i2
+  | PL_model i1, PL_model i2 => i1 =? i2
+  | _, _ => false
+  end.
+Proof. destruct a; reflexivity. Qed.
+
+Lemma ty_eqb_ext a b a' b' :
+  mp_kind a = mp_kind a' -> mp_pl a = mp_pl a' -> mp_kind b = mp_kind b' -> mp_pl b = mp_pl b' ->
+  ty_eqb a b = ty_eqb a' b'.
+Proof. intros H1 H2 H3 H4. rewrite (ty_eqb_unfold a b), (ty_eqb_unfold a' b'), H1, H2, H3, H4. reflexivity. Qed.
+
+Lemma ty_eqb_refl : forall a, ty_eqb a a = true.
+Proof.
+  induction a as [a IH] using mprop_ind'. rewrite ty_eqb_unfold, mkind_eqb_refl. cbn [andb].
+  destruct (mp_pl a) as [|vt v c|vt v c|i|cv|ms id|id] eqn:E.
+  - reflexivity.
+  - unfold same_set_members. now rewrite vtype_eqb_refl, subset_members_refl, str_eqb_refl.
+  - unfold same_set_evalues. now rewrite vtype_eqb_refl, subset_evalues_refl, str_eqb_refl.
+  - apply IH. reflexivity.
+  - apply jval_eqb_refl.
+  - apply N.eqb_refl.
+  - apply N.eqb_refl.
+Qed.
+Lemma ty_eqb_same a b : mp_kind a = mp_kind b -> mp_pl a = mp_pl b -> ty_eqb a b = true.
+Proof. intros Hk Hp. rewrite (ty_eqb_ext a b b b Hk Hp eq_refl eq_refl). apply ty_eqb_refl. Qed.
+
+Lemma evalue_eqb_sym a b : evalue_eqb a b = evalue_eqb b a.
+Proof. destruct a as [x|x], b as [y|y]; cbn [evalue_eqb]; try reflexivity; [apply Z.eqb_sym | apply str_eqb_sym]. Qed.
+Lemma member_eqb_sym a b : member_eqb a b = member_eqb b a.
+Proof. unfold member_eqb. now rewrite (str_eqb_sym (fst a)), (evalue_eqb_sym (snd a)). Qed.
+Lemma value_eqb_sym a b : value_eqb a b = value_eqb b a.
+Proof. unfold value_eqb. now rewrite (str_eqb_sym (code a)), (jval_eqb_sym (raw a)). Qed.
+Lemma optval_eqb_sym a b : optval_eqb a b = optval_eqb b a.
+Proof. destruct a, b; cbn [optval_eqb]; try reflexivity. apply value_eqb_sym. Qed.
+Lemma optN_eqb_sym a b : optN_eqb a b = optN_eqb b a.
+Proof. destruct a, b; cbn [optN_eqb]; try reflexivity. apply N.eqb_sym. Qed.
+Lemma list_eqb_sym {A} (eq : A -> A -> bool) (Hs : forall x y, eq x y = eq y x) :
+  forall a b, list_eqb eq a b = list_eqb eq b a.
+Proof. induction a as [|x a IH]; intros [|y b]; cbn [list_eqb]; try reflexivity. now rewrite (Hs x y), (IH b). Qed.
+Lemma booleqb_sym (a b : bool) : Bool.eqb a b = Bool.eqb b a.
+Proof. now destruct a, b. Qed.
+
+Lemma mprop_eqb_sym : forall a b, mprop_eqb a b = mprop_eqb b a.
+Proof.
+  induction a as [a IH] using mprop_ind'. intros b.
+  destruct a as [k1 r1 d1 ds1 e1 pl1], b as [k2 r2 d2 ds2 e2 pl2]. cbn [mprop_eqb]. cbn [mp_pl] in IH.
+  rewrite (mkind_eqb_sym k1 k2), (booleqb_sym r1 r2), (optval_eqb_sym d1 d2), (optN_eqb_sym ds1 ds2), (optN_eqb_sym e1 e2).
+  f_equal.
+  destruct pl1 as [|vt1 v1 c1|vt1 v1 c1|i1|cv1|ms1 id1|id1], pl2 as [|vt2 v2 c2|vt2 v2 c2|i2|cv2|ms2 id2|id2]; try reflexivity.
+  - now rewrite (vtype_eqb_sym vt1 vt2), (list_eqb_sym member_eqb member_eqb_sym v1 v2), (str_eqb_sym c1 c2).
+  - now rewrite (vtype_eqb_sym vt1 vt2), (list_eqb_sym evalue_eqb evalue_eqb_sym v1 v2), (str_eqb_sym c1 c2).
+  - apply IH. reflexivity.
+  - apply jval_eqb_sym.
+  - apply N.eqb_sym.
+  - apply N.eqb_sym.
+Qed.
+
+Lemma mprop_eqb_ty : forall a b, mprop_eqb a b = true -> ty_eqb a b = true.
+Proof.
+  induction a as [a IH] using mprop_ind'. intros b H.
+  destruct a as [k1 r1 d1 ds1 e1 pl1], b as [k2 r2 d2 ds2 e2 pl2]. cbn [mprop_eqb] in H. cbn [mp_pl] in IH.
+  apply andb_true_iff in H as [H Hpl]. apply andb_true_iff in H as [H _]. apply andb_true_iff in H as [H _].
+  apply andb_true_iff in H as [H _]. apply andb_true_iff in H as [Hk _].
+  rewrite ty_eqb_unfold. cbn [mp_kind mp_pl]. rewrite Hk. cbn [andb].
+  destruct pl1 as [|vt1 v1 c1|vt1 v1 c1|i1|cv1|ms1 id1|id1], pl2 as [|vt2 v2 c2|vt2 v2 c2|i2|cv2|ms2 id2|id2];
+    try discriminate Hpl; try exact Hpl.
+  - apply andb_true_iff in Hpl as [Hpl Hc]. apply andb_true_iff in Hpl as [Hvt Hl].
+    apply (list_eqb_eq member_eqb member_eqb_eq) in Hl. subst v2.
+    unfold same_set_members. now rewrite Hvt, Hc, subset_members_refl.
+  - apply andb_true_iff in Hpl as [Hpl Hc]. apply andb_true_iff in Hpl as [Hvt Hl].
+    apply (list_eqb_eq evalue_eqb evalue_eqb_eq) in Hl. subst v2.
+    unfold same_set_evalues. now rewrite Hvt, Hc, subset_evalues_refl.
+  - apply IH; [reflexivity | exact Hpl].
+Qed.
+
+(* ---------- enum / enum and literal enum / literal enum ---------- *)
+Lemma enum_vt_agree {r1 d1 ds1 e1 vt1 v1 c1 r2 d2 ds2 e2 vt2 v2 c2} :
+  wf_mprop (MP MEnum r1 d1 ds1 e1 (PL_enum vt1 v1 c1)) = true ->
+  wf_mprop (MP MEnum r2 d2 ds2 e2 (PL_enum vt2 v2 c2)) = true ->
+  subset_members v1 v2 = true -> vt1 = vt2.
+Proof.
+  cbn [wf_mprop mp_kind mp_pl]. intros H1 H2 Hs.
+  apply andb_true_iff in H1 as [Hne H1]. apply andb_true_iff in H2 as [_ H2].
+  destruct v1 as [|m v1]; [discriminate Hne|].
+  rewrite forallb_forall in H1, H2. rewrite subset_members_In in Hs.
+  specialize (H1 m (or_introl eq_refl)). specialize (H2 m (Hs m (or_introl eq_refl))).
+  destruct vt1, vt2, (snd m); try reflexivity; discriminate.
+Qed.
+Lemma litenum_vt_agree {r1 d1 ds1 e1 vt1 v1 c1 r2 d2 ds2 e2 vt2 v2 c2} :
+  wf_mprop (MP MLitEnum r1 d1 ds1 e1 (PL_litenum vt1 v1 c1)) = true ->
+  wf_mprop (MP MLitEnum r2 d2 ds2 e2 (PL_litenum vt2 v2 c2)) = true ->
+  subset_evalues v1 v2 = true -> vt1 = vt2.
+Proof.
+  cbn [wf_mprop mp_kind mp_pl]. intros H1 H2 Hs.
+  apply andb_true_iff in H1 as [Hne H1]. apply andb_true_iff in H2 as [_ H2].
+  destruct v1 as [|m v1]; [discriminate Hne|].
+  rewrite forallb_forall in H1, H2. rewrite subset_evalues_In in Hs.
+  specialize (H1 m (or_introl eq_refl)). specialize (H2 m (Hs m (or_introl eq_refl))).
+  destruct vt1, vt2, m; try reflexivity; discriminate.
+Qed.
+
+Lemma enum_enum_sym o r1 d1 ds1 e1 vt1 v1 c1 r2 d2 ds2 e2 vt2 v2 c2 x1 x2 :
+  let p := MP MEnum r1 d1 ds1 e1 (PL_enum vt1 v1 c1) in
+  let q := MP MEnum r2 d2 ds2 e2 (PL_enum vt2 v2 c2) in
+  wf_mprop p = true -> wf_mprop q = true -> g_merge p q = true ->
+  merge o p q = MOk x1 -> merge o q p = MOk x2 -> ty_eqb x1 x2 = true.
+Proof.
+  intros p q Hwp Hwq Hg H1 H2. subst p q.
+  assert (Hvt : subset_members v1 v2 = true \/ subset_members v2 v1 = true -> vt1 = vt2).
+  { intros [E|E]; [exact (enum_vt_agree Hwp Hwq E) | symmetry; exact (enum_vt_agree Hwq Hwp E)]. }
+  cbn -[common subset_members] in H1, H2, Hg. unfold same_set_members in Hg.
+  destruct (subset_members v1 v2) eqn:E12; destruct (subset_members v2 v1) eqn:E21;
+    try discriminate H1; (assert (vt1 = vt2) as <- by (apply Hvt; auto));
+    apply common_spec in H1; apply common_spec in H2;
+    destruct H1 as (Hk1 & Hp1 & _); destruct H2 as (Hk2 & Hp2 & _);
+    rewrite (ty_eqb_ext _ _ _ _ Hk1 Hp1 Hk2 Hp2); try (apply ty_eqb_same; reflexivity).
+  rewrite ty_eqb_unfold. cbn [mp_kind mp_pl mkind_eqb andb]. unfold same_set_members.
+  cbn [negb andb orb] in Hg. now rewrite vtype_eqb_refl, E12, E21, Hg.
+Qed.
+Lemma lit_lit_sym o r1 d1 ds1 e1 vt1 v1 c1 r2 d2 ds2 e2 vt2 v2 c2 x1 x2 :
+  let p := MP MLitEnum r1 d1 ds1 e1 (PL_litenum vt1 v1 c1) in
+  let q := MP MLitEnum r2 d2 ds2 e2 (PL_litenum vt2 v2 c2) in
+  wf_mprop p = true -> wf_mprop q = true -> g_merge p q = true ->
+  merge o p q = MOk x1 -> merge o q p = MOk x2 -> ty_eqb x1 x2 = true.
+Proof.
+  intros p q Hwp Hwq Hg H1 H2. subst p q.
+  assert (Hvt : subset_evalues v1 v2 = true \/ subset_evalues v2 v1 = true -> vt1 = vt2).
+  { intros [E|E]; [exact (litenum_vt_agree Hwp Hwq E) | symmetry; exact (litenum_vt_agree Hwq Hwp E)]. }
+  cbn -[common subset_evalues] in H1, H2, Hg. unfold same_set_evalues in Hg.
+  destruct (subset_evalues v1 v2) eqn:E12; destruct (subset_evalues v2 v1) eqn:E21;
+    try discriminate H1; (assert (vt1 = vt2) as <- by (apply Hvt; auto));
+    apply common_spec in H1; apply common_spec in H2;
+    destruct H1 as (Hk1 & Hp1 & _); destruct H2 as (Hk2 & Hp2 & _);
+    rewrite (ty_eqb_ext _ _ _ _ Hk1 Hp1 Hk2 Hp2); try (apply ty_eqb_same; reflexivity).
+  rewrite ty_eqb_unfold. cbn [mp_kind mp_pl mkind_eqb andb]. unfold same_set_evalues.
+  cbn [negb andb orb] in Hg. now rewrite vtype_eqb_refl, E12, E21, Hg.
+Qed.
+
+Theorem merge_type_symmetric : forall o p q r1 r2,
+  wf_mprop p = true -> wf_mprop q = true -> g_merge p q = true ->
+  merge o p q = MOk r1 -> merge o q p = MOk r2 -> ty_eqb r1 r2 = true.
+Proof.
+  intros o p. induction p as [p IH] using mprop_ind'. intros q r1 r2 Hwp Hwq Hg H1 H2.
+  pose proof (mprop_eqb_sym p q) as Hsym.
+  split_kinds p q Hwp Hwq;
+  try (solve [eapply enum_enum_sym; [exact Hwp|exact Hwq|exact Hg|exact H1|exact H2]]);
+  try (solve [eapply lit_lit_sym; [exact Hwp|exact Hwq|exact Hg|exact H1|exact H2]]);
+  crunch H1; crunch H2; try discriminate Hsym;
+  try (injection H1 as <-; injection H2 as <-; apply mprop_eqb_ty; assumption);
+  try (apply common_spec in H1; apply common_spec in H2;
+       destruct H1 as (Hk1 & Hp1 & _); destruct H2 as (Hk2 & Hp2 & _);
+       rewrite (ty_eqb_ext _ _ _ _ Hk1 Hp1 Hk2 Hp2);
+       first [apply ty_eqb_same; reflexivity | exact Hg]).
+  destruct (merge o i1 i2) as [j1| |] eqn:Em1; try discriminate H1.
+  destruct (merge o i2 i1) as [j2| |] eqn:Em2; try discriminate H2.
+  pose proof (IH i1 eq_refl i2 j1 j2 Hwp Hwq Hg Em1 Em2) as Hj.
+  apply common_spec in H1; apply common_spec in H2.
+  destruct H1 as (Hk1 & Hp1 & _); destruct H2 as (Hk2 & Hp2 & _).
+  rewrite (ty_eqb_ext _ _ _ _ Hk1 Hp1 Hk2 Hp2). exact Hj.
+Qed.
+
 Theorem merge_first_wins_refuted : exists o p q r1 r2,
   wf_mprop p = true /\ wf_mprop q = true /\ g_merge p q = false /\
   merge o p q = MOk r1 /\ merge o q p = MOk r2 /\ ty_eqb r1 r2 = false.
+Proof.
+  exists dummy_oracles, (MP MModel false None None None (PL_model 0)), (MP MModel false None None None (PL_model 1)),
+         (MP MModel false None None None (PL_model 0)), (MP MModel false None None None (PL_model 1)).
+  vm_compute. repeat split; reflexivity.
+Qed.
 
-(* property collection: the composed class has exactly the property names of all members, each once *)
+Example merge_nonvacuous : exists o p q r,
+  wf_mprop p = true /\ wf_mprop q = true /\ g_merge p q = true /\ mp_kind p <> mp_kind q /\ merge o p q = MOk r.
+Proof.
+  exists dummy_oracles, (MP MInt false None None None PL_none), (MP MFloat true None None None PL_none),
+         (MP MInt true None None None PL_none).
+  repeat split; try reflexivity. cbn. discriminate.
+Qed.
+
+(* ---------- property collection ---------- *)
+Definition cstep (o : oracles) (acc : option (list (str * mprop))) (np : str * mprop) : option (list (str * mprop)) :=
+  match acc with Some ps => add_prop o ps (fst np) (snd np) | None => None end.
+Lemma collect_eq o ins : collect o ins = fold_left (cstep o) ins (Some []).
+Proof. reflexivity. Qed.
+Lemma fold_cstep_none o ins : fold_left (cstep o) ins None = None.
+Proof. induction ins as [|np ins IH]; cbn [fold_left cstep]; auto. Qed.
+
+Lemma NoDup_snoc {A} (l : list A) x : NoDup l -> ~ In x l -> NoDup (l ++ [x]).
+Proof.
+  induction l as [|y l IH]; cbn [app]; intros Hnd Hni.
+  - constructor; [intros []|constructor].
+  - inversion Hnd as [|y' l' Hy Hl]; subst. constructor.
+    + rewrite in_app_iff. cbn [In]. intros [H|[H|[]]]; [now apply Hy|]. subst. apply Hni. now left.
+    + apply IH; [exact Hl|]. intros H. apply Hni. now right.
+Qed.
+
+Lemma add_prop_names o : forall acc n1 p1 acc', add_prop o acc n1 p1 = Some acc' ->
+  (In n1 (map fst acc) /\ map fst acc' = map fst acc) \/
+  (~ In n1 (map fst acc) /\ map fst acc' = map fst acc ++ [n1]).
+Proof.
+  induction acc as [|[n' p'] rest IH]; intros n1 p1 acc' H; cbn [add_prop] in H.
+  - injection H as <-. right. split; [intros []|reflexivity].
+  - destruct (str_eqb n1 n') eqn:E.
+    + apply str_eqb_eq in E. subst n'. destruct (merge o p' p1) as [m| |]; try discriminate H. injection H as <-.
+      left. cbn [map fst In]. auto.
+    + destruct (add_prop o rest n1 p1) as [r|] eqn:Er; try discriminate H. injection H as <-.
+      assert (Hne : n1 <> n') by (intros ->; rewrite str_eqb_refl in E; discriminate E).
+      destruct (IH _ _ _ Er) as [[Hin Hm]|[Hnin Hm]].
+      * left. cbn [map fst In]. split; [right; exact Hin| now rewrite Hm].
+      * right. cbn [map fst In app]. split; [intros [Heq|Hin]; [congruence|now apply Hnin] | now rewrite Hm].
+Qed.
+
+Lemma In_fst {A B} (a : A) (b : B) l : In (a, b) l -> In a (map fst l).
+Proof. intros H. apply (in_map fst) in H. exact H. Qed.
+
+Lemma add_prop_entries o : forall acc n1 p1 acc', add_prop o acc n1 p1 = Some acc' -> NoDup (map fst acc) ->
+  forall n p0', In (n, p0') acc' ->
+    (n <> n1 /\ In (n, p0') acc) \/
+    (n = n1 /\ ((exists p0, In (n1, p0) acc /\ merge o p0 p1 = MOk p0') \/ (~ In n1 (map fst acc) /\ p0' = p1))).
+Proof.
+  induction acc as [|[n' p'] rest IH]; intros n1 p1 acc' H Hnd n p0' Hin; cbn [add_prop] in H.
+  - injection H as <-. destruct Hin as [Heq|[]]. injection Heq as <- <-. right. split; [reflexivity|]. right. split; [intros []|reflexivity].
+  - cbn [map fst] in Hnd. inversion Hnd as [|x l Hx Hl]; subst.
+    destruct (str_eqb n1 n') eqn:E.
+    + apply str_eqb_eq in E. subst n'. destruct (merge o p' p1) as [m| |] eqn:Em; try discriminate H. injection H as <-.
+      destruct Hin as [Heq|Hin].
+      * injection Heq as <- <-. right. split; [reflexivity|]. left. exists p'. split; [now left|exact Em].
+      * left. split; [|now right]. intros ->. apply Hx. exact (In_fst _ _ _ Hin).
+    + destruct (add_prop o rest n1 p1) as [r|] eqn:Er; try discriminate H. injection H as <-.
+      assert (Hne : n1 <> n') by (intros ->; rewrite str_eqb_refl in E; discriminate E).
+      destruct Hin as [Heq|Hin].
+      * injection Heq as <- <-. left. split; [congruence|now left].
+      * destruct (IH _ _ _ Er Hl _ _ Hin) as [[Hn Hi]|[Hn [(p0 & Hi & Hm)|[Hni Hp]]]].
+        -- left. split; [exact Hn|now right].
+        -- right. split; [exact Hn|]. left. exists p0. split; [now right|exact Hm].
+        -- right. split; [exact Hn|]. right. split; [|exact Hp]. cbn [map fst In]. intros [Heq|Hi]; [congruence|now apply Hni].
+Qed.
+
+Lemma collect_names_gen o : forall ins acc out,
+  fold_left (cstep o) ins (Some acc) = Some out -> NoDup (map fst acc) ->
+  (forall n, In n (map fst out) <-> In n (map fst acc) \/ In n (map fst ins)) /\ NoDup (map fst out).
+Proof.
+  induction ins as [|[n1 p1] ins IH]; intros acc out H Hnd; cbn [fold_left] in H.
+  - injection H as <-. split; [|exact Hnd]. intros n; cbn [map In]; tauto.
+  - cbn [cstep fst snd] in H. destruct (add_prop o acc n1 p1) as [acc'|] eqn:Ea.
+    2:{ rewrite fold_cstep_none in H. discriminate H. }
+    pose proof (add_prop_names o _ _ _ _ Ea) as Hn.
+    assert (Hnd' : NoDup (map fst acc')).
+    { destruct Hn as [[_ ->]|[Hni ->]]; [exact Hnd | now apply NoDup_snoc]. }
+    destruct (IH _ _ H Hnd') as [Hin Hnd'']. split; [|exact Hnd''].
+    intros n. rewrite Hin. cbn [map fst In].
+    destruct Hn as [[Hi ->]|[Hni ->]].
+    + split; [tauto|]. intros [H0|[<-|H0]]; auto.
+    + rewrite in_app_iff. cbn [In]. tauto.
+Qed.
+
 Theorem collect_names : forall o ins out,
   collect o ins = Some out ->
   (forall n, In n (map fst out) <-> In n (map fst ins)) /\ NoDup (map fst out).
+Proof.
+  intros o ins out H. rewrite collect_eq in H.
+  destruct (collect_names_gen o ins [] out H (NoDup_nil _)) as [Hin Hnd]. split; [|exact Hnd].
+  intros n. rewrite Hin. cbn [map In]. tauto.
+Qed.
+
+Definition reqf (n : str) (np : str * mprop) : bool := str_eqb n (fst np) && mp_required (snd np).
+
+Lemma collect_required_gen o : forall ins acc out,
+  fold_left (cstep o) ins (Some acc) = Some out -> NoDup (map fst acc) ->
+  forall n p, In (n, p) out ->
+    (exists p0, In (n, p0) acc /\ mp_required p = mp_required p0 || existsb (reqf n) ins) \/
+    (~ In n (map fst acc) /\ mp_required p = existsb (reqf n) ins).
+Proof.
+  induction ins as [|[n1 p1] ins IH]; intros acc out H Hnd n p Hin; cbn [fold_left] in H.
+  - injection H as <-. left. exists p. split; [exact Hin|]. cbn [existsb]. now rewrite orb_false_r.
+  - cbn [cstep fst snd] in H. destruct (add_prop o acc n1 p1) as [acc'|] eqn:Ea.
+    2:{ rewrite fold_cstep_none in H. discriminate H. }
+    pose proof (add_prop_names o _ _ _ _ Ea) as Hn.
+    assert (Hnd' : NoDup (map fst acc')).
+    { destruct Hn as [[_ ->]|[Hni ->]]; [exact Hnd | now apply NoDup_snoc]. }
+    cbn [existsb]. unfold reqf at 1 3. cbn [fst snd].
+    destruct (IH _ _ H Hnd' n p Hin) as [(p0' & Hi' & Hr)|[Hni' Hr]].
+    + destruct (add_prop_entries o _ _ _ _ Ea Hnd _ _ Hi') as [[Hne Hi]|[-> [(p0 & Hi & Hm)|[Hni Hp]]]].
+      * left. exists p0'. split; [exact Hi|]. rewrite Hr.
+        destruct (str_eqb n n1) eqn:E; [apply str_eqb_eq in E; congruence|]. reflexivity.
+      * left. exists p0. split; [exact Hi|]. rewrite Hr, (merge_required_or _ _ _ _ Hm), str_eqb_refl.
+        cbn [andb]. now rewrite orb_assoc.
+      * right. split; [exact Hni|]. subst p0'. rewrite Hr, str_eqb_refl. reflexivity.
+    + right.
+      assert (Hnn : ~ In n (map fst acc) /\ n <> n1).
+      { destruct Hn as [[Hi Hm]|[Hi Hm]]; rewrite Hm in Hni'.
+        - split; [exact Hni'|]. intros ->. now apply Hni'.
+        - rewrite in_app_iff in Hni'. cbn [In] in Hni'. split; [tauto|]. intros ->. tauto. }
+      destruct Hnn as [Hni Hne]. split; [exact Hni|]. rewrite Hr.
+      destruct (str_eqb n n1) eqn:E; [apply str_eqb_eq in E; congruence|]. reflexivity.
+Qed.
 
 Theorem collect_required : forall o ins out n p,
   collect o ins = Some out -> In (n, p) out ->
   mp_required p = existsb (fun np => str_eqb n (fst np) && mp_required (snd np)) ins.
+Proof.
+  intros o ins out n p H Hin. rewrite collect_eq in H.
+  destruct (collect_required_gen o ins [] out H (NoDup_nil _) n p Hin) as [(p0 & [] & _)|[_ Hr]].
+  exact Hr.
+Qed.
 
-Example merge_nonvacuous : exists o p q r,
-  wf_mprop p = true /\ wf_mprop q = true /\ g_merge p q = true /\ mp_kind p <> mp_kind q /\ merge o p q = MOk r.
-*)
+
+(* ---------- further refutation witnesses found by the checks on the real code (known findings of C15) ---------- *)
+
+(* pairwise merging is not associative: [int; number; int-enum] folds to the enum, the reversed member list is a diagnostic,
+   although every pair is inside the guard (known finding merge_three_way_order) *)
+Definition w_int : mprop := MP MInt false None None None PL_none.
+Definition w_float : mprop := MP MFloat false None None None PL_none.
+Definition w_enum12 : mprop := MP MEnum false None None None (PL_enum VInt [([65], EInt 1%Z); ([66], EInt 2%Z)] [69]).
+Theorem collect_order_refuted : exists o ins out,
+  forallb (fun np => wf_mprop (snd np)) ins = true /\
+  forallb (fun a => forallb (fun b => g_merge (snd a) (snd b)) ins) ins = true /\
+  collect o ins = Some out /\ collect o (rev ins) = None.
+Proof.
+  exists dummy_oracles, [([97], w_int); ([97], w_float); ([97], w_enum12)].
+  eexists. repeat split; vm_compute; reflexivity.
+Qed.
+
+(* enum/enum merge that switches to the second enum's class keeps the first declaration's default, whose code names the
+   first class (known finding merge_enum_default_stale_class) *)
+Definition w_enum_abc_P : mprop :=
+  MP MEnum false (Some {| code := [80; 46; 65]; raw := JStr [97] |}) None None
+     (PL_enum VStr [([65], EStr [97]); ([66], EStr [98]); ([67], EStr [99])] [80]).
+Definition w_enum_ab_Q : mprop := MP MEnum false None None None (PL_enum VStr [([65], EStr [97]); ([66], EStr [98])] [81]).
+Theorem merge_enum_default_stale_refuted : exists o p q r vt vals cls v,
+  wf_mprop p = true /\ wf_mprop q = true /\ g_merge p q = true /\ merge o p q = MOk r /\
+  mp_pl r = PL_enum vt vals cls /\ mp_dflt r = Some v /\ is_prefix (cls ++ [46]) (code v) = false.
+Proof.
+  exists dummy_oracles, w_enum_abc_P, w_enum_ab_Q. do 5 eexists. repeat split; vm_compute; reflexivity.
+Qed.
+
+Print Assumptions merge_required_or.
+Print Assumptions merge_kind_narrowest.
+Print Assumptions merge_wf.
+Print Assumptions merge_type_symmetric.
+Print Assumptions merge_incompatible_symmetric.
+Print Assumptions merge_first_wins_refuted.
+Print Assumptions collect_names.
+Print Assumptions collect_required.
+Print Assumptions merge_nonvacuous.
+Print Assumptions collect_order_refuted.
+Print Assumptions merge_enum_default_stale_refuted.
